@@ -128,6 +128,12 @@ def handle (line : String) : Except String String := do
     let off ← (← j.getObjVal? "offset").getNat?
     let sorted := sortBy keys rows
     return " ".intercalate ((limitOffset (lim.map Int.toNat) off sorted).map showRow)
+  | "hoist" =>
+    let taken ← (← (← j.getObjVal? "taken").getArr?).toList.mapM (·.getStr?)
+    let k ← (← j.getObjVal? "k").getNat?
+    match hoistAliases (← (← j.getObjVal? "base").getStr?) taken k with
+    | some names => return " ".intercalate names
+    | none => return "internal"
   | "glue" =>
     let arith ← (← (← j.getObjVal? "arith").getArr?).toList.mapM (·.getStr?)
     return dpipeGlueShape arith (← (← j.getObjVal? "tok").getStr?) (← (← j.getObjVal? "dpipeRight").getBool?)
